@@ -35,3 +35,16 @@ Theorem C07_source_type_codes_are_the_models :
   (T_CREATE, T_MEASURE, T_INSTALL, T_UPDATE, T_CHANGEPROG, T_READY).
 Proof. exact type_codes_tie. Qed.
 Print Assumptions C07_source_type_codes_are_the_models.
+
+(* translator obligations (lib/gen_statespace.py reads the structs, statics and mutable bindings of the
+   modelled code on every run): the code has the state the model represents and no other *)
+From Portus Require Import StateTie.
+From PortusGen Require Import StateSpace.
+From Coq Require Import String.
+Open Scope string_scope.
+Theorem C07_source_shared_state_create : nth 11 impl_shared_state_tokens "" = "src/serialize/create.rs: unsafe".
+Proof. exact shared_state_serialize_create. Qed.
+Print Assumptions C07_source_shared_state_create.
+Theorem C07_source_shared_state_measure : nth 12 impl_shared_state_tokens "" = "src/serialize/measure.rs: unsafe".
+Proof. exact shared_state_serialize_measure. Qed.
+Print Assumptions C07_source_shared_state_measure.
